@@ -19,7 +19,9 @@ pub mod c09;
 pub mod c10;
 pub mod c11;
 pub mod c12;
+pub mod c15;
 pub mod c17;
+pub mod c18;
 pub mod c13;
 pub mod c14;
 
@@ -38,7 +40,9 @@ pub fn units(prop: &str, tier: Tier, seed: u64) -> Option<(Vec<Unit>, Meta)> {
         "C11" => (c11::units(tier, seed), c11::meta()),
         "C12" => (c12::units(tier, seed), c12::meta()),
         "C13" => (c13::units(tier, seed), c13::meta()),
+        "C15" => (c15::units(tier, seed), c15::meta()),
         "C17" => (c17::units(tier, seed), c17::meta()),
+        "C18" => (c18::units(tier, seed), c18::meta()),
         "C14" => (c14::units(tier, seed), c14::meta()),
         _ => return None,
     })
